@@ -517,8 +517,8 @@ def unwrapping(repo: Repo, res: CheckResult) -> None:
     m = repo.mod(GP)
     want = {
         "NewTypeUnwrappingProvider": ("__supertype__",),
-        "TypeHintTagsUnwrappingProvider": ("strip_tags", "unwrapped"),
-        "TypeAliasUnwrappingProvider": ("__value__", "norm.value"),
+        "TypeHintTagsUnwrappingProvider": ("strip_tags",),
+        "TypeAliasUnwrappingProvider": ("__value__", "value"),
     }
     n = 0
     for cname, marks in want.items():
@@ -531,7 +531,9 @@ def unwrapping(repo: Repo, res: CheckResult) -> None:
         n += 1
         res.evaluated(f"unwrap:{cname}", True)
         txt = norm(gd)
-        if not any(mk in txt for mk in marks):
+        attrs_used = {x.attr for x in ast.walk(gd) if isinstance(x, ast.Attribute)} | {norm(c.func) for c in ast.walk(gd) if isinstance(c, ast.Call)}
+        marks = tuple(mk.split(".")[-1] for mk in marks)
+        if not any(mk in attrs_used for mk in marks):
             res.add(Finding("C02", "UNWRAP.delegation", m.rel, f"{cname}.get_delegated_type", txt[:160],
                             f"{cname} must delegate to the wrapped type ({' / '.join(marks)})", gd.lineno))
         if not repo.is_subclass(ci, "LocatedRequestDelegatingProvider"):
@@ -544,7 +546,9 @@ def unwrapping(repo: Repo, res: CheckResult) -> None:
     if dp is None:
         raise AnalysisError("anchor vanished: LocatedRequestDelegatingProvider")
     gh = dp.methods["get_request_handlers"]
-    txt = norm(gh).replace(" ", "")
-    if "mediator.delegating_provide(replace(request,loc_stack=request.loc_stack.replace_last_type(tp)))" not in txt.replace("\n", ""):
+    txt = norm(gh).replace(" ", "").replace("\n", "")
+    mt = re.search(r"(\w+)=self\.get_delegated_type\((\w+),(\w+)\)", txt)
+    ok = mt is not None and f"{mt.group(2)}.delegating_provide(replace({mt.group(3)},loc_stack={mt.group(3)}.loc_stack.replace_last_type({mt.group(1)})))" in txt
+    if not ok:
         res.add(Finding("C02", "UNWRAP.delegation", lr.rel, "LocatedRequestDelegatingProvider.get_request_handlers", norm(gh)[:200],
                         "the delegated request is the same request with only the last type replaced by the wrapped type", gh.lineno))
